@@ -472,7 +472,7 @@ func sharedCase(idx int64, r *rand.Rand) {
 }
 
 func TestCheck(t *testing.T) {
-	rt.Cases(5000, 1000000, func(idx int64) {
+	rt.Cases(50000, 5000000, func(idx int64) {
 		r := rt.CaseRand(14, idx)
 		rt.Case()
 		switch {
